@@ -57,14 +57,14 @@ theorem structResult_error (name : Str) (names : List Str) (kvs : List (Str × P
 
 /-- the mismatch error at the current item -/
 theorem mismatch_spec {τ : Ty} {j : PV} {p : Path} {e : PyExc} (hh : headOk τ j = false)
-    (h : (mismatch p : R PV) = .error e) : ∃ r k, Offends τ j r k ∧ e = mkExc k (p ++ r) := by
+    (h : (mismatch p : R PV) = .error e) : ∃ r k, Offends τ j r k ∧ e = .config k (p ++ r) := by
   simp [mismatch] at h; subst h
-  exact ⟨[], .cfg .mismatch, .mismatch hh, by simp [mkExc]⟩
+  exact ⟨[], .mismatch, .mismatch hh, by simp⟩
 
 mutual
 /-- every error of the parser is justified by an offending item, and names it -/
 theorem err_spec : ∀ (τ : Ty) (j : PV) (p : Path) (e : PyExc), parseValue τ j p = .error e →
-    ∃ r k, Offends τ j r k ∧ e = mkExc k (p ++ r)
+    ∃ r k, Offends τ j r k ∧ e = .config k (p ++ r)
   | .any, j, p, e, h => by simp [parseValue] at h
   | .opt t, j, p, e, h => by
     by_cases hj : j = .none
@@ -81,8 +81,8 @@ theorem err_spec : ∀ (τ : Ty) (j : PV) (p : Path) (e : PyExc), parseValue τ 
       cases hf : floatOverflow n with
       | false => simp [hf] at h
       | true =>
-        simp [hf] at h; subst h
-        exact ⟨[], .hugeInt, .hugeInt hf, rfl⟩
+        simp only [hf, if_true] at h
+        exact mismatch_spec (by simp [headOk, hf]) h
     | none => simp only [parseValue] at h; exact mismatch_spec (by rfl) h
     | str s => simp only [parseValue] at h; exact mismatch_spec (by rfl) h
     | list s => simp only [parseValue] at h; exact mismatch_spec (by rfl) h
@@ -116,10 +116,9 @@ theorem err_spec : ∀ (τ : Ty) (j : PV) (p : Path) (e : PyExc), parseValue τ 
       exact ⟨.idx n :: r, k, .tupleVarT h1 ho, by simpa using he⟩
     | _ => simp only [parseValue] at h; exact mismatch_spec (by rfl) h
   | .tupleFix ts, j, p, e, h => by
-    rw [parseValue_tupleFix] at h
     cases j with
     | list xs =>
-      simp only [pyLen] at h
+      rw [parseValue_tupleFix_list] at h
       by_cases hl : xs.length = ts.length
       · simp only [hl, if_true, okMap_error] at h
         obtain ⟨n, t, x, r, k, h1, h2, ho, he⟩ := errT_spec ts xs 0 p e hl h
@@ -127,25 +126,14 @@ theorem err_spec : ∀ (τ : Ty) (j : PV) (p : Path) (e : PyExc), parseValue τ 
       · simp only [hl, if_false] at h
         exact mismatch_spec (by simp [headOk, hl]) h
     | tuple xs =>
-      simp only [pyLen] at h
+      rw [parseValue_tupleFix_tuple] at h
       by_cases hl : xs.length = ts.length
       · simp only [hl, if_true, okMap_error] at h
         obtain ⟨n, t, x, r, k, h1, h2, ho, he⟩ := errT_spec ts xs 0 p e hl h
         exact ⟨.idx n :: r, k, .tupleFixT hl h1 h2 ho, by simpa using he⟩
       · simp only [hl, if_false] at h
         exact mismatch_spec (by simp [headOk, hl]) h
-    | str s =>
-      simp only [pyLen] at h
-      split at h <;> exact mismatch_spec (by rfl) h
-    | dict s =>
-      simp only [pyLen] at h
-      split at h <;> exact mismatch_spec (by rfl) h
-    | none => simp [pyLen] at h; subst h; exact ⟨[], .nonSized, .nonSized rfl, rfl⟩
-    | bool b => simp [pyLen] at h; subst h; exact ⟨[], .nonSized, .nonSized rfl, rfl⟩
-    | int b => simp [pyLen] at h; subst h; exact ⟨[], .nonSized, .nonSized rfl, rfl⟩
-    | flt b => simp [pyLen] at h; subst h; exact ⟨[], .nonSized, .nonSized rfl, rfl⟩
-    | fltOfInt b => simp [pyLen] at h; subst h; exact ⟨[], .nonSized, .nonSized rfl, rfl⟩
-    | inst c b => simp [pyLen] at h; subst h; exact ⟨[], .nonSized, .nonSized rfl, rfl⟩
+    | _ => simp only [parseValue] at h; exact mismatch_spec (by rfl) h
   | .dict t, j, p, e, h => by
     cases j with
     | dict kvs =>
@@ -160,20 +148,20 @@ theorem err_spec : ∀ (τ : Ty) (j : PV) (p : Path) (e : PyExc), parseValue τ 
       rw [parseValue_struct_dict] at h
       rcases structResult_error _ _ _ _ _ _ h with h | ⟨k, h1, h2, h3⟩
       · rcases errF_spec fs kvs p e h with ⟨n, t, h1, h2, h3⟩ | ⟨n, t, d, x, r, k, h1, h2, ho, he⟩
-        · exact ⟨[.field n], .cfg .missing, .missing h1 h2, by simpa [mkExc] using h3⟩
+        · exact ⟨[.field n], .missing, .missing h1 h2, by simpa using h3⟩
         · exact ⟨.field n :: r, k, .field h1 h2 ho, he⟩
-      · exact ⟨[.field k], .cfg .unknown, .unknown h1 h2, by simpa [mkExc] using h3⟩
+      · exact ⟨[.field k], .unknown, .unknown h1 h2, by simpa using h3⟩
     | inst c ifs =>
       rw [parseValue_struct_inst] at h
       rcases structResult_error _ _ _ _ _ _ h with h | ⟨k, h1, h2, h3⟩
       · rcases errF_spec fs _ p e h with ⟨n, t, h1, h2, h3⟩ | ⟨n, t, d, x, r, k, h1, h2, ho, he⟩
-        · exact ⟨[.field n], .cfg .missing, .missingInst h1 h2, by simpa [mkExc] using h3⟩
+        · exact ⟨[.field n], .missing, .missingInst h1 h2, by simpa using h3⟩
         · exact ⟨.field n :: r, k, .fieldInst h1 h2 ho, he⟩
-      · exact ⟨[.field k], .cfg .unknown, .unknownInst h1 h2, by simpa [mkExc] using h3⟩
+      · exact ⟨[.field k], .unknown, .unknownInst h1 h2, by simpa using h3⟩
     | _ => simp only [parseValue] at h; exact mismatch_spec (by rfl) h
 theorem errT_spec : ∀ (ts : List Ty) (xs : List PV) (i : Nat) (p : Path) (e : PyExc),
     xs.length = ts.length → parseTuple ts xs i p = .error e →
-    ∃ n t x r k, ts[n]? = some t ∧ xs[n]? = some x ∧ Offends t x r k ∧ e = mkExc k (p ++ .idx (i + n) :: r)
+    ∃ n t x r k, ts[n]? = some t ∧ xs[n]? = some x ∧ Offends t x r k ∧ e = .config k (p ++ .idx (i + n) :: r)
   | [], xs, i, p, e, hl, h => by
     cases xs <;> simp [parseTuple] at h
   | t :: ts, xs, i, p, e, hl, h => by
@@ -198,13 +186,13 @@ theorem errT_spec : ∀ (ts : List Ty) (xs : List PV) (i : Nat) (p : Path) (e : 
 theorem errF_spec : ∀ (fs : List Field) (kvs : List (Str × PV)) (p : Path) (e : PyExc),
     parseFields fs kvs p = .error e →
     (∃ n t, (n, t, Option.none) ∈ fs ∧ assoc n kvs = .none ∧ e = .config .missing (p ++ [.field n])) ∨
-    (∃ n t d x r k, (n, t, d) ∈ fs ∧ assoc n kvs = some x ∧ Offends t x r k ∧ e = mkExc k (p ++ .field n :: r))
+    (∃ n t d x r k, (n, t, d) ∈ fs ∧ assoc n kvs = some x ∧ Offends t x r k ∧ e = .config k (p ++ .field n :: r))
   | [], kvs, p, e, h => by simp [parseFields] at h
   | (n, t, d) :: fs, kvs, p, e, h => by
     have lift : ∀ e', parseFields fs kvs p = .error e' →
         (∃ n' t', (n', t', Option.none) ∈ (n, t, d) :: fs ∧ assoc n' kvs = .none ∧ e' = .config .missing (p ++ [.field n'])) ∨
         (∃ n' t' d' x r k, (n', t', d') ∈ (n, t, d) :: fs ∧ assoc n' kvs = some x ∧ Offends t' x r k ∧
-          e' = mkExc k (p ++ .field n' :: r)) := by
+          e' = .config k (p ++ .field n' :: r)) := by
       intro e' hr
       rcases errF_spec fs kvs p e' hr with ⟨n', t', h1, h2, h3⟩ | ⟨n', t', d', x, r, k, h1, h2, ho, he⟩
       · exact Or.inl ⟨n', t', by simp [h1], h2, h3⟩
@@ -262,7 +250,12 @@ theorem headOk_false_error : ∀ (τ : Ty) (j : PV), headOk τ j = false → ∀
     rw [parseValue_opt_of_ne _ _ _ hj]
     exact headOk_false_error t j h.2 p
   | .int, j, h, p => by cases j <;> simp [headOk] at h <;> exact ⟨_, by simp only [parseValue]; rfl⟩
-  | .float, j, h, p => by cases j <;> simp [headOk] at h <;> exact ⟨_, by simp only [parseValue]; rfl⟩
+  | .float, j, h, p => by
+    cases j with
+    | int n =>
+      simp [headOk] at h
+      rw [parseValue_float_int]; simp only [h, if_true]; exact ⟨_, rfl⟩
+    | _ => simp [headOk] at h <;> exact ⟨_, by simp only [parseValue]; rfl⟩
   | .str, j, h, p => by cases j <;> simp [headOk] at h <;> exact ⟨_, by simp only [parseValue]; rfl⟩
   | .bool, j, h, p => by cases j <;> simp [headOk] at h <;> exact ⟨_, by simp only [parseValue]; rfl⟩
   | .list t, j, h, p => by cases j <;> simp [headOk] at h <;> exact ⟨_, by simp only [parseValue]; rfl⟩
@@ -270,18 +263,10 @@ theorem headOk_false_error : ∀ (τ : Ty) (j : PV), headOk τ j = false → ∀
   | .dict t, j, h, p => by cases j <;> simp [headOk] at h <;> exact ⟨_, by simp only [parseValue]; rfl⟩
   | .struct n fs, j, h, p => by cases j <;> simp [headOk] at h <;> exact ⟨_, by simp only [parseValue]; rfl⟩
   | .tupleFix ts, j, h, p => by
-    rw [parseValue_tupleFix]
     cases j with
-    | list xs => simp [headOk] at h; simp only [pyLen, h, if_false]; exact ⟨_, rfl⟩
-    | tuple xs => simp [headOk] at h; simp only [pyLen, h, if_false]; exact ⟨_, rfl⟩
-    | str s => simp only [pyLen]; split <;> exact ⟨_, rfl⟩
-    | dict s => simp only [pyLen]; split <;> exact ⟨_, rfl⟩
-    | none => exact ⟨_, rfl⟩
-    | bool b => exact ⟨_, rfl⟩
-    | int b => exact ⟨_, rfl⟩
-    | flt b => exact ⟨_, rfl⟩
-    | fltOfInt b => exact ⟨_, rfl⟩
-    | inst c b => exact ⟨_, rfl⟩
+    | list xs => simp [headOk] at h; rw [parseValue_tupleFix_list]; simp only [h, if_false]; exact ⟨_, rfl⟩
+    | tuple xs => simp [headOk] at h; rw [parseValue_tupleFix_tuple]; simp only [h, if_false]; exact ⟨_, rfl⟩
+    | _ => exact ⟨_, by simp only [parseValue]; rfl⟩
 
 theorem mapIdx_isErr {f : Nat → PV → R PV} :
     ∀ (xs : List PV) (i n : Nat) (x : PV), xs[n]? = some x → IsErr (f (i + n) x) → IsErr (mapIdx f i xs) := by
@@ -381,7 +366,7 @@ theorem parseFields_isErr_field : ∀ (fs : List Field) (kvs : List (Str × PV))
         | some dv => exact ⟨e, by simp [he]⟩
 
 /-- **whenever** an item offends (unknown field, missing required field, inadmissible value), parsing fails -/
-theorem offending_rejected {τ : Ty} {j : PV} {r : Path} {k : ErrKind} (h : Offends τ j r k) :
+theorem offending_rejected {τ : Ty} {j : PV} {r : Path} {k : CfgKind} (h : Offends τ j r k) :
     ∀ p, IsErr (parseValue τ j p) := by
   induction h with
   | mismatch hh => exact headOk_false_error _ _ hh
@@ -397,8 +382,6 @@ theorem offending_rejected {τ : Ty} {j : PV} {r : Path} {k : ErrKind} (h : Offe
   | unknownInst h1 h2 =>
     intro p; rw [parseValue_struct_inst]
     exact isErr_structResult_unknown _ _ _ _ _ h1 h2
-  | nonSized hl => intro p; rw [parseValue_tupleFix]; simp only [hl]; exact ⟨_, rfl⟩
-  | hugeInt hf => intro p; rw [parseValue_float_int]; simp only [hf]; exact ⟨_, rfl⟩
   | opt hj _ ih => intro p; rw [parseValue_opt_of_ne _ _ _ hj]; exact ih p
   | list h1 _ ih =>
     intro p; simp only [parseValue]
@@ -410,10 +393,10 @@ theorem offending_rejected {τ : Ty} {j : PV} {r : Path} {k : ErrKind} (h : Offe
     intro p; simp only [parseValue]
     exact isErr_okMap _ _ (mapIdx_isErr _ 0 _ _ h1 (ih _))
   | tupleFixL hl h1 h2 _ ih =>
-    intro p; rw [parseValue_tupleFix]; simp only [pyLen, hl, if_true]
+    intro p; rw [parseValue_tupleFix_list]; simp only [hl, if_true]
     exact isErr_okMap _ _ (parseTuple_isErr _ _ 0 p _ _ _ h1 h2 ih)
   | tupleFixT hl h1 h2 _ ih =>
-    intro p; rw [parseValue_tupleFix]; simp only [pyLen, hl, if_true]
+    intro p; rw [parseValue_tupleFix_tuple]; simp only [hl, if_true]
     exact isErr_okMap _ _ (parseTuple_isErr _ _ 0 p _ _ _ h1 h2 ih)
   | dict h1 _ ih =>
     intro p; simp only [parseValue]
